@@ -384,6 +384,53 @@ theorem solid_factor_eq {T : Type} (pct : T → Rat) (Tc T0 : T) (same : Bool) (
   · cases h
   · exact (Option.some.inj h).symm
 
+/-! ### `getDimension(key, Tc=T)` and the derived (left-over) shape -/
+
+private theorem dim_atTemperature (fs : List (Option Rat)) (sys : List Comp) (i : Nat) (c : Comp)
+    (h : (atTemperature fs sys)[i]? = some c) : ∃ c0, sys[i]? = some c0 ∧ c.dims = c0.dims := by
+  unfold atTemperature at h
+  rw [List.getElem?_map] at h
+  cases hz : (sys.zip fs)[i]? with
+  | none => rw [hz] at h; cases h
+  | some p =>
+    rw [hz] at h
+    simp only [Option.map_some, Option.some.injEq] at h
+    rw [List.getElem?_zip_eq_some] at hz
+    exact ⟨p.1, hz.1, by rw [← h]⟩
+
+/-- **a linked dimension read at a temperature `T` equals the link target's dimension read at the same `T`**
+(`Tc` is handed down the link chain) -/
+theorem linked_dim_follows_Tc (sys : List Comp) (fs : List (Option Rat)) (fuel i j : Nat) (key k : String)
+    (c : Comp) (hc : (atTemperature fs sys)[i]? = some c) (hd : c.dim? key = some (.link j k)) :
+    getDimensionTc sys fs (fuel + 1) i key = getDimensionTc sys fs fuel j k :=
+  linked_dim_follows (atTemperature fs sys) fuel i j key k c false hc hd
+
+private theorem foldr_add_append (l1 l2 : List Rat) :
+    (l1 ++ l2).foldr (· + ·) 0 = l1.foldr (· + ·) 0 + l2.foldr (· + ·) 0 := by
+  induction l1 with
+  | nil => simp
+  | cons a l ih => simp only [List.cons_append, List.foldr_cons, ih]; ring
+
+/-- **the component areas of a block with a derived shape sum to the block's area** — at every condition -/
+theorem derived_closes (A : Rat) (as : List Rat) : derivedArea A as + as.foldr (· + ·) 0 = A := by
+  unfold derivedArea; ring
+
+/-- **the derived area follows its neighbours**: a sibling growing by `δ` takes `δ` from the derived shape -/
+theorem derived_follows (A δ a : Rat) (pre post : List Rat) :
+    derivedArea A (pre ++ (a + δ) :: post) = derivedArea A (pre ++ a :: post) - δ := by
+  unfold derivedArea
+  rw [foldr_add_append, foldr_add_append]; simp only [List.foldr_cons]; ring
+
+/-- hence the mass per unit height of a derived (fluid) component is NOT conserved when a neighbour expands: its
+number density `n` is untouched by the neighbour's `setTemperature`, its area loses `δ`.  ("Fluids keep their
+dimensions" is about a fluid's own stored dimensions and its own temperature — a derived shape stores none.) -/
+theorem derived_mass_per_height_changes (A δ a n : Rat) (pre post : List Rat) :
+    n * derivedArea A (pre ++ (a + δ) :: post) = n * derivedArea A (pre ++ a :: post) - n * δ := by
+  rw [derived_follows]; ring
+
+example : (2 : Rat) * derivedArea 10 ([3] ++ (4 + 1) :: []) ≠ 2 * derivedArea 10 ([3] ++ 4 :: []) := by
+  rw [derived_mass_per_height_changes]; norm_num [derivedArea]
+
 /-! ### non-vacuity: the hypotheses of the theorems above are satisfiable -/
 
 example := mass_per_height_conserved .Helix (fun t : Rat => t) 0 10 [20, 5] 3 2 1 (fun _ => 1) 7
